@@ -38,6 +38,7 @@ type c02Stream struct {
 	Chunks       []string
 	ServerFirst  bool
 	UDP          bool
+	LongH        int // the last packet comes this many hours after the payload (a long lived stream)
 	Index        int // index file holding this version
 	cAddr, sAddr netip.Addr
 	cPort, sPort uint16
@@ -60,7 +61,7 @@ func (s *c02Stream) prepare(base time.Time) {
 		client = !client
 	}
 	s.first = base.Add(time.Hour * time.Duration(s.FirstH))
-	s.last = s.first.Add(time.Second * time.Duration(2+len(s.Chunks)))
+	s.last = s.first.Add(time.Second*time.Duration(2+len(s.Chunks)) + time.Hour*time.Duration(s.LongH))
 }
 
 func (s *c02Stream) info(base time.Time) streamInfo {
@@ -71,6 +72,10 @@ func (s *c02Stream) info(base time.Time) streamInfo {
 	si := makeStream(s.Client, s.Server, base.Add(time.Hour*time.Duration(s.FirstH)), data)
 	if s.UDP {
 		si.s.Flags = streams.StreamFlagsComplete | streams.StreamFlagsProtocolUDP
+	}
+	if s.LongH != 0 {
+		last := &si.s.Packets[len(si.s.Packets)-1]
+		last.Timestamp = last.Timestamp.Add(time.Hour * time.Duration(s.LongH))
 	}
 	return si
 }
@@ -290,15 +295,28 @@ func (q c02Then) eval(s *c02Stream, _ time.Time) bool {
 		client = !client
 	}
 	off := [2]int{0, 0}
+	vars := map[string]string{}
 	for _, e := range q.E {
 		d := 0
 		if e.Key == "sdata" {
 			d = 1
 		}
-		m := regexp.MustCompile(e.Re).FindStringIndex(data[d][off[d]:])
-		if m == nil {
+		// variables: @v@ stands for the (quoted) text that the named group v captured in an earlier element
+		expr := e.Re
+		for name, val := range vars {
+			expr = strings.ReplaceAll(expr, "@"+name+"@", "(?:"+regexp.QuoteMeta(val)+")")
+		}
+		re := regexp.MustCompile(expr)
+		sm := re.FindStringSubmatchIndex(data[d][off[d]:])
+		if sm == nil {
 			return false
 		}
+		for gi, gn := range re.SubexpNames() {
+			if gn != "" && sm[2*gi] >= 0 {
+				vars[gn] = data[d][off[d]:][sm[2*gi]:sm[2*gi+1]]
+			}
+		}
+		m := sm[:2]
 		if m[1] != 0 {
 			off[d] += m[1]
 			for i := len(cum) - 1; i >= 1; i-- {
@@ -319,6 +337,8 @@ type c02TagModel struct {
 	Uncertain map[uint64]bool
 	Def       c02Q
 }
+
+var c02LongLived bool // the current population has streams whose last packet comes hours after the others
 
 var c02Tags []*c02TagModel // tags of the current population (definitions only name earlier tags)
 
@@ -346,7 +366,7 @@ func (q c02Not) eval(s *c02Stream, r time.Time) bool  { return !q.A.eval(s, r) }
 // ---- generators ----
 
 var (
-	c02Addrs   = []string{"10.0.0.1", "10.0.0.2", "10.0.1.1", "192.168.0.1", "10.0.0.129", "fd00::1", "fd00::2", "fd00:0:1::1"}
+	c02Addrs   = []string{"10.0.0.1", "10.0.0.2", "10.0.1.1", "192.168.0.1", "10.0.0.129", "fd00::1", "fd00::2", "fd00:0:1::1", "fd00::"}
 	c02Ports   = []uint16{80, 443, 1234, 8080, 31337}
 	c02Chunks  = []string{"foo", "bar", "GET /flag", "foobar", "baz", "xfoo", "ooo", "f", "oo", "flag{abc}", "caaa", "xababab"}
 	c02AnchorRegexes = []string{"o$", "^foo", "\\bfoo", "bar\\b", "\\Aba", "z\\z", "^GET", "g\\b"}
@@ -384,6 +404,9 @@ func genPopulation(rng *rand.Rand, maxStreams int) (versions []*c02Stream, nIdx 
 			}
 			s.ServerFirst = len(s.Chunks) > 0 && rng.Intn(4) == 0
 			s.UDP = rng.Intn(4) == 0
+			if rng.Intn(4) == 0 {
+				s.LongH = 1 + rng.Intn(30)
+			}
 			versions = append(versions, s)
 		}
 	}
@@ -422,6 +445,16 @@ func genAtom(rng *rand.Rand, withData bool) c02Q {
 		for k := 1 + rng.Intn(3); k > 0; k-- {
 			th.E = append(th.E, c02Data{[]string{"cdata", "sdata"}[rng.Intn(2)], res[rng.Intn(len(res))]})
 		}
+		if os.Getenv("C02_VARS") != "" && rng.Intn(3) == 0 {
+			// a named group in the first element, its text required again by a later element
+			cap := []string{"(?P<v>ba[rz])", "(?P<v>fo+)", "(?P<v>[a-z]{3})", "x(?P<v>f.o)", "(?P<v>GET|PUT) /"}[rng.Intn(5)]
+			use := []string{"@v@", "@v@b", "o@v@", "@v@|xyz"}[rng.Intn(4)]
+			th.E = []c02Data{{[]string{"cdata", "sdata"}[rng.Intn(2)], cap}, {[]string{"cdata", "sdata"}[rng.Intn(2)], use}}
+			if rng.Intn(3) == 0 {
+				th.E = append(th.E, c02Data{[]string{"cdata", "sdata"}[rng.Intn(2)], res[rng.Intn(len(res))]})
+			}
+			return th
+		}
 		if len(th.E) == 3 && rng.Intn(2) == 0 {
 			// the same expression again later in the chain (expressions are shared between elements)
 			th.E[2] = th.E[0]
@@ -459,7 +492,27 @@ func genAtom(rng *rand.Rand, withData bool) c02Q {
 				bits = []int{[]int{8, 24, 25, 31, 32, -8, -1, -32}[rng.Intn(8)]}
 			}
 		}
-		return c02Host{[]string{"chost", "shost", "host"}[rng.Intn(3)], a, bits}
+		h := c02Host{[]string{"chost", "shost", "host"}[rng.Intn(3)], a, bits}
+		if rng.Intn(4) == 0 {
+			// two filters on the same address with different masks in one conjunction
+			var bits2 []int
+			if strings.Contains(a, ":") {
+				bits2 = []int{[]int{16, 48, 64, 127, 128, -16, -1, -128}[rng.Intn(8)]}
+			} else {
+				bits2 = []int{[]int{8, 24, 25, 31, 32, -8, -1, -32}[rng.Intn(8)]}
+			}
+			if rng.Intn(2) == 0 {
+				// a network address under two prefix lengths (the masked addresses coincide)
+				h.Addr, h.Bits = "fd00::", []int{[]int{48, 64}[rng.Intn(2)]}
+				a, bits2 = "fd00::", []int{[]int{127, 128, 96}[rng.Intn(3)]}
+			}
+			var other c02Q = c02Host{h.Key, a, bits2}
+			if rng.Intn(2) == 0 {
+				other = c02Not{other}
+			}
+			return c02And{h, other}
+		}
+		return h
 	case 4:
 		return c02Proto{rng.Intn(3) != 0, rng.Intn(3) == 0}
 	case 5:
@@ -474,7 +527,13 @@ func genAtom(rng *rand.Rand, withData bool) c02Q {
 		if lo >= 0 && hi >= 0 && lo < hi {
 			lo, hi = hi, lo
 		}
-		return c02Time{[]string{"ftime", "ltime", "time"}[rng.Intn(3)], lo, hi}
+		keys := []string{"ftime", "ltime", "time"}
+		if c02LongLived {
+			// "time:" is answered from the first and last packet time only (a stream whose packets skip the
+			// range is still selected): with long lived streams only ftime/ltime have an exact meaning here
+			keys = keys[:2]
+		}
+		return c02Time{keys[rng.Intn(len(keys))], lo, hi}
 	default:
 		return c02Data{[]string{"cdata", "sdata", "data"}[rng.Intn(3)], c02Regexes[rng.Intn(len(c02Regexes))]}
 	}
@@ -740,6 +799,12 @@ func TestC02Standin(t *testing.T) {
 				tagDesc += fmt.Sprintf(" tag/%s=%q undecided=%v matches=%v", tn, def.str(), keys(tm.Uncertain), keys(tm.Matches))
 				c02Tags = append(c02Tags, tm) // later definitions may name this tag
 				_ = ti
+			}
+		}
+		c02LongLived = false
+		for _, v := range versions {
+			if v.LongH != 0 {
+				c02LongLived = true
 			}
 		}
 		pop, _ := json.Marshal(versions)
